@@ -12,9 +12,11 @@ package main
 //               invalid escapes, corrupt base64, malformed forms, token soup) + /repo/tests/data-uri/corpus.
 //   mediatype : generated media type strings with quoted parameters + /repo/tests/mediatype/corpus.
 //   known     : replay of the open known findings (the fixed ones K-C18-4/5/6 are regression inputs of the stages above).
-// Every DataURI case runs the real minify.DataURI with five registries (none / identity stub / shrinking stub /
-// failing stub / nested stub that hands nested data: URIs back to minify.DataURI as sub-slices); the stub's answer is handed to
-// the model as data.  The argument is copied before the call (the implementation gets a private buffer, sometimes with spare
+// Every DataURI case runs the real minify.DataURI with eight registries: none; a catch-all pattern with an identity /
+// shrinking / failing / nested stub (the last hands nested data: URIs back to minify.DataURI as sub-slices); a literal
+// `text/plain` registration; the pattern `^text/`; both.  Which stub is asked, with what, and what it answers is computed
+// from the C15 dispatch rule and the model's reading of the input — not taken from what the implementation did — and handed
+// to the model as data; the implementation's recorded call must agree (else kind "fail": a registered minifier not asked).  The argument is copied before the call (the implementation gets a private buffer, sometimes with spare
 // capacity) and the result is retained at return, so a result that aliases a clobbered argument is seen as what it is.  Checked per case: (a) model = implementation
 // (kind "diff"); (b) the property itself on the implementation's output, by the Lean specification
 // (`spec.c18.holds`) and by an independent Go reading (kind "fail"): the output is the input or reads per
@@ -183,7 +185,41 @@ func c18ValidlyEncoded(r c18Read) bool {
 
 // ---------- registries ----------
 
-var c18Regs = []string{"none", "identity", "shrink", "fail", "nested"}
+var c18Regs = []string{"none", "identity", "shrink", "fail", "nested", "lit", "pat", "lit+pat"}
+
+var c18TextPat = regexp.MustCompile(`^text/`)
+
+// c18Selected is the C15 dispatch rule for the registries used here: does `m.Bytes(mediatype, …)` reach the recording stub?
+// none: nothing registered; identity/shrink/fail/nested: a catch-all pattern; lit: a literal registration for `text/plain`;
+// pat: the pattern `^text/`; lit+pat: both (the literal one is preferred, both are the same recording stub).
+func c18Selected(reg string, mediatype []byte) bool {
+	mimetype, _ := parse.Mediatype(append([]byte{}, mediatype...))
+	switch reg {
+	case "none":
+		return false
+	case "lit":
+		return string(mimetype) == "text/plain"
+	case "pat":
+		return c18TextPat.Match(mimetype)
+	case "lit+pat":
+		return string(mimetype) == "text/plain" || c18TextPat.Match(mimetype)
+	}
+	return true
+}
+
+// c18StubAnswer is what the stub of registry `reg` answers for payload d (ok=false: it fails, the payload stays as it is)
+func c18StubAnswer(reg string, d []byte) ([]byte, bool) {
+	switch reg {
+	case "identity":
+		return append([]byte{}, d...), true
+	case "shrink", "lit", "pat", "lit+pat":
+		return bytes.ReplaceAll(d, []byte(" "), nil), true
+	case "nested":
+		rec := &c18Call{depth: 1}
+		return c18NestedRewrite(c18Registry("nested", rec), append([]byte{}, d...), rec), true
+	}
+	return nil, false
+}
 
 type c18Call struct {
 	called int
@@ -222,7 +258,7 @@ func c18Registry(kind string, rec *c18Call) *minify.M {
 	if kind == "none" {
 		return m
 	}
-	m.AddFuncRegexp(regexp.MustCompile(`(?s)^.*$`), func(_ *minify.M, w io.Writer, r io.Reader, _ map[string]string) error {
+	stub := func(_ *minify.M, w io.Writer, r io.Reader, _ map[string]string) error {
 		b, _ := io.ReadAll(r)
 		if rec.depth > 0 { // a nested data URI's own payload: left alone
 			w.Write(b)
@@ -240,7 +276,7 @@ func c18Registry(kind string, rec *c18Call) *minify.M {
 		case "identity":
 			w.Write(b)
 			rec.out, rec.ok = append([]byte{}, b...), true
-		case "shrink":
+		case "shrink", "lit", "pat", "lit+pat":
 			o := bytes.ReplaceAll(b, []byte(" "), nil)
 			w.Write(o)
 			rec.out, rec.ok = o, true
@@ -249,7 +285,18 @@ func c18Registry(kind string, rec *c18Call) *minify.M {
 			return errors.New("stub failure")
 		}
 		return nil
-	})
+	}
+	switch kind {
+	case "lit":
+		m.AddFunc("text/plain", stub)
+	case "pat":
+		m.AddFuncRegexp(c18TextPat, stub)
+	case "lit+pat":
+		m.AddFuncRegexp(c18TextPat, stub)
+		m.AddFunc("text/plain", stub)
+	default:
+		m.AddFuncRegexp(regexp.MustCompile(`(?s)^.*$`), stub)
+	}
 	return m
 }
 
@@ -527,6 +574,15 @@ func c18GenMediatype(r *h.RNG) []byte {
 
 // ---------- evaluation ----------
 
+// c18Expect: what is expected of the call to the sub-minifier, independent of what the implementation did
+type c18Expect struct {
+	parsed   bool
+	mt, data []byte // media type and decoded payload as parse.DataURI returns them (model)
+	selected bool   // the registry's stub is selected for mt (C15 rule)
+	answered bool   // … and answers (does not fail)
+	answer   []byte
+}
+
 type c18Spec struct {
 	ok      bool
 	mt      string
@@ -563,33 +619,52 @@ func c18EvalURIs(c *Ctx, st *h.Stage, uris [][]byte) error {
 			cases = append(cases, c18RunOne(u, reg, []int{0, 0, 7, 64}[(ui+ri)%4]))
 		}
 	}
-	// 2. model + spec lines
+	// 2. how the dependency reads the input (model) and how RFC 2397 reads it (spec)
 	var lines []string
 	for _, cs := range cases {
-		has, so := int64(0), []byte{}
-		if cs.call.ok {
-			has, so = 1, cs.call.out
-		}
-		lines = append(lines, "model.c18.datauri "+h.Hex(cs.u)+" "+h.Int(has)+" "+h.Hex(so))
+		lines = append(lines, "model.c18.parse "+h.Hex(cs.u))
 		lines = append(lines, "spec.c18.rfc "+h.Hex(cs.u))
 	}
-	rep, err := h.Eval(lines)
+	rep0, err := h.Eval(lines)
 	if err != nil {
 		return err
 	}
-	// 3. holds lines need d' (the sub-minifier's answer, else the RFC payload of the input)
+	// 3. the sub-minifier's answer is NOT taken from what the implementation did: by the C15 dispatch rule the stub of
+	//    the registry is selected (or not) for the media type parse.DataURI returns, and answers for the decoded payload
 	specs := make([]c18Spec, len(cases))
+	exp := make([]c18Expect, len(cases))
 	var hl []string
 	for i, cs := range cases {
-		b, ok, msg := h.DecodeReply(rep[2*i+1])
+		b, ok, msg := h.DecodeReply(rep0[2*i+1])
 		f := h.DecodeListReply(b)
 		if !ok || len(f) != 6 {
-			return fmt.Errorf("spec.c18.rfc: bad reply %q %s", rep[2*i+1], msg)
+			return fmt.Errorf("spec.c18.rfc: bad reply %q %s", rep0[2*i+1], msg)
 		}
 		specs[i] = c18Spec{ok: string(f[0]) == "1", mt: string(f[1]), norm: string(f[2]), data: f[3], trig: string(f[4]), valid: string(f[5]) == "1"}
+		pb, ok, msg := h.DecodeReply(rep0[2*i])
+		pf := h.DecodeListReply(pb)
+		if !ok || len(pf) != 3 {
+			return fmt.Errorf("model.c18.parse: bad reply %q %s", rep0[2*i], msg)
+		}
+		e := c18Expect{parsed: string(pf[0]) == "1", mt: pf[1], data: pf[2]}
+		if e.parsed {
+			e.selected = c18Selected(cs.reg, e.mt)
+			if e.selected {
+				e.answer, e.answered = c18StubAnswer(cs.reg, e.data)
+			}
+		}
+		exp[i] = e
+		has, so := int64(0), []byte{}
+		if e.answered {
+			has, so = 1, e.answer
+		}
+		hl = append(hl, "model.c18.datauri "+h.Hex(cs.u)+" "+h.Int(has)+" "+h.Hex(so))
+		// what the result must decode to: the stub's answer for the RFC payload of the argument (else that payload itself)
 		d := specs[i].data
-		if cs.call.ok {
-			d = cs.call.out
+		if e.selected {
+			if a, ok := c18StubAnswer(cs.reg, d); ok {
+				d = a
+			}
 		}
 		hl = append(hl, "spec.c18.holds "+h.Hex(cs.u)+" "+h.Hex(cs.out)+" "+h.Hex(d))
 	}
@@ -642,7 +717,7 @@ func c18EvalURIs(c *Ctx, st *h.Stage, uris [][]byte) error {
 			st.Tag("nested-datauri-calls")
 		}
 		// (a) model = implementation
-		mb, ok, msg := h.DecodeReply(rep[2*i])
+		mb, ok, msg := h.DecodeReply(hrep[2*i])
 		mf := h.DecodeListReply(mb)
 		if !ok || len(mf) != 4 {
 			c18Diff(c, h.Finding{Stage: st.Name, Kind: "diff", What: "model.c18.datauri: model error " + msg, Input: h.Q(cs.u), Hex: h.Hex(cs.u), Config: cs.reg})
@@ -650,13 +725,27 @@ func c18EvalURIs(c *Ctx, st *h.Stage, uris [][]byte) error {
 			if !bytes.Equal(mf[0], cs.out) {
 				c18Diff(c, h.Finding{Stage: st.Name, Kind: "diff", What: "model.c18.datauri", Input: h.Q(cs.u), Hex: h.Hex(cs.u), Config: cs.reg, Impl: h.Q(cs.out), Model: h.Q(mf[0])})
 			}
-			if cs.reg != "none" {
-				parsed := string(mf[1]) == "1"
-				if parsed != (cs.call.called == 1) || (parsed && !bytes.Equal(mf[3], cs.call.in)) {
-					c18Diff(c, h.Finding{Stage: st.Name, Kind: "diff", What: "sub-minifier call (called? with which data)", Input: h.Q(cs.u), Hex: h.Hex(cs.u), Config: cs.reg,
-						Impl: fmt.Sprintf("called=%d data=%s", cs.call.called, h.Q(cs.call.in)), Model: fmt.Sprintf("parsed=%v data=%s", parsed, h.Q(mf[3]))})
-				}
-			}
+		}
+		// the sub-minifier: selected by the C15 rule for the media type parse.DataURI returns ⇒ called exactly once with the
+		// decoded payload; not selected ⇒ not called.  A minifier that is registered for the type but never asked leaves the
+		// payload un-minified: the property itself fails (kind "fail"), whatever the output looks like.
+		e := exp[i]
+		wantCalls := 0
+		if e.selected {
+			wantCalls = 1
+		}
+		if cs.call.called != wantCalls || (wantCalls == 1 && !bytes.Equal(cs.call.in, e.data)) {
+			mimetype, _ := parse.Mediatype(append([]byte{}, e.mt...))
+			c.R.Add(h.Finding{Stage: st.Name, Kind: "fail", What: "DataURI: the minifier registered for the media type is not called exactly once with the decoded payload", Input: h.Q(cs.u), Hex: h.Hex(cs.u), Config: "registry=" + cs.reg,
+				Impl:  fmt.Sprintf("called %d time(s) with %s; output %s", cs.call.called, h.Q(cs.call.in), h.Q(cs.out)),
+				Model: fmt.Sprintf("media type %q (mimetype %q): expected %d call(s) with %s", e.mt, mimetype, wantCalls, h.Q(e.data))})
+			st.Tag("dispatch=wrong")
+			continue
+		}
+		if e.selected {
+			st.Tag("dispatch=called/" + cs.reg)
+		} else if e.parsed && cs.reg != "none" {
+			st.Tag("dispatch=not-selected/" + cs.reg)
 		}
 		// validation of the Lean specification reader against the independent Go reader
 		if sp.ok != gr.ok || (sp.ok && (sp.mt != gr.mt || !bytes.Equal(sp.data, gr.data) || sp.norm != c18Norm(gr.mt) || sp.valid != c18ValidlyEncoded(gr))) {
@@ -666,14 +755,16 @@ func c18EvalURIs(c *Ctx, st *h.Stage, uris [][]byte) error {
 		// (b) the property on the implementation's output
 		if !gr.ok {
 			st.Tag("input=not-rfc2397")
-			if !sp.ok && string(hrepGet(hrep[i])) != "1" {
+			if !sp.ok && string(hrepGet(hrep[2*i+1])) != "1" {
 				return fmt.Errorf("spec.c18.holds must be vacuous on %q", cs.u)
 			}
 			continue
 		}
 		want := gr.data
-		if cs.call.ok {
-			want = cs.call.out
+		if e.selected {
+			if a, ok := c18StubAnswer(cs.reg, gr.data); ok {
+				want = a
+			}
 		}
 		clause := ""
 		if changed {
@@ -689,7 +780,7 @@ func c18EvalURIs(c *Ctx, st *h.Stage, uris [][]byte) error {
 			// the length clause presupposes a sub-minifier that does not make the payload more expensive to encode
 			// (`NonExpanding` of dataURI_length_partial: not longer, and not longer in percent-encoded form)
 			if clause == "" && len(cs.out) > len(cs.u) && c18ValidlyEncoded(gr) &&
-				(!cs.call.ok || (len(cs.call.out) <= len(cs.call.in) && c18PctLen(cs.call.out) <= c18PctLen(cs.call.in))) {
+				(!e.answered || (len(e.answer) <= len(e.data) && c18PctLen(e.answer) <= c18PctLen(e.data))) {
 				clause = "length"
 			}
 		}
@@ -702,7 +793,7 @@ func c18EvalURIs(c *Ctx, st *h.Stage, uris [][]byte) error {
 				clause = "shortest"
 			}
 		}
-		leanHolds := string(hrepGet(hrep[i])) == "1"
+		leanHolds := string(hrepGet(hrep[2*i+1])) == "1"
 		if leanHolds != (clause == "" || clause == "length" || clause == "shortest") {
 			c18Diff(c, h.Finding{Stage: st.Name, Kind: "diff", What: "Lean holdsDataURI differs from the independent Go evaluation (clause " + clause + ")", Input: h.Q(cs.u), Hex: h.Hex(cs.u), Config: cs.reg, Impl: h.Q(cs.out)})
 		}
@@ -915,7 +1006,7 @@ func init() {
 		}
 
 		// ---- exhaustive over payload byte values ----
-		st := c.R.StartStage("bytes", "every payload byte value 0..255 x 6 payload shapes (b, bb, aba, 6 x b, 12 x b, b+'a'x5) x 4 input encodings (raw, percent upper, percent lower, base64) x 3 media types, each with 5 registries (none, identity, shrinking, failing, nested); non-trivial = output differs from input or the sub-minifier ran")
+		st := c.R.StartStage("bytes", "every payload byte value 0..255 x 6 payload shapes (b, bb, aba, 6 x b, 12 x b, b+'a'x5) x 4 input encodings (raw, percent upper, percent lower, base64) x 3 media types, each with 8 registries (none; catch-all identity, shrinking, failing, nested; literal text/plain; pattern ^text/; both); non-trivial = output differs from input or the sub-minifier ran")
 		var uris [][]byte
 		for b := 0; b < 256; b++ {
 			bb := byte(b)
@@ -934,8 +1025,32 @@ func init() {
 		}
 		st.End()
 
+		// ---- which minifier is asked (deterministic) ----
+		st = c.R.StartStage("dispatch", "17 media types (omitted, text/plain in 4 spellings, text/plain with default / other / several parameters, parameters after an omitted type, whitespace, other text/* and non-text types, text/plainx) x 6 payloads with and without spaces x 3 encodings (raw, percent, base64), each with 8 registries: none, catch-all identity / shrinking / failing / nested, a literal `text/plain` registration, the pattern `^text/`, both; oracle: the stub is called exactly once with the decoded payload iff the C15 rule selects it for the media type parse.DataURI returns, and the result carries its answer; all of called / not-selected must occur for lit and pat; non-trivial = output differs from input or the sub-minifier ran")
+		{
+			var du [][]byte
+			types := []string{"", "text/plain", "TEXT/PLAIN", "Text/Plain", "text/plain;charset=us-ascii", "text/plain;charset=utf-8", "text/plain;charset=us-ascii;a=b", "text/plain;a=b;CHARSET=US-ASCII",
+				";charset=utf-8", ";charset=us-ascii", " text/plain ", "text/plain ;charset=us-ascii", "text/html", "text/css;charset=us-ascii", "image/svg+xml", "text/plainx", "x/y"}
+			pays := []string{"a b c", "  ", "a  b<p> x </p>", "nospace", " ", "# # # # # # # #"}
+			for _, t := range types {
+				for _, pl := range pays {
+					du = append(du, []byte("data:"+t+","+pl), []byte("data:"+t+","+string(c18PctEncode(c.Rng, []byte(pl), 0))), []byte("data:"+t+";base64,"+base64.StdEncoding.EncodeToString([]byte(pl))))
+				}
+			}
+			if err := c18EvalURIs(c, st, du); err != nil {
+				return err
+			}
+			st.Exhaustive = true
+			for _, want := range []string{"dispatch=called/lit", "dispatch=not-selected/lit", "dispatch=called/pat", "dispatch=not-selected/pat", "dispatch=called/shrink"} {
+				if st.Dist[want] == 0 {
+					c18Diff(c, h.Finding{Stage: st.Name, Kind: "diff", What: "generator gap: outcome never reached: " + want, Input: "(sweep)"})
+				}
+			}
+		}
+		st.End()
+
 		// ---- data-URI-like text inside percent-encoded payloads (deterministic) ----
-		st = c.R.StartStage("lookalike", "percent-encoded URIs whose payload contains data-URI syntax (`;base64`, `data:`, `,`, `%25`, `;charset=`, a nested data URI inside svg/css text): 10 templates x 0..12 raw escapable bytes x 6 escapes x 3 positions x 3 media types + fully escaped forms, each with 5 registries (none, identity, shrinking, failing, nested = a stub that hands every nested data: URI to minify.DataURI as a sub-slice of its payload); the argument is retained before the call and the result at return; all three outcomes (original returned / percent / base64) are required to occur with and without escapes; non-trivial = output differs from input or the sub-minifier ran")
+		st = c.R.StartStage("lookalike", "percent-encoded URIs whose payload contains data-URI syntax (`;base64`, `data:`, `,`, `%25`, `;charset=`, a nested data URI inside svg/css text): 10 templates x 0..12 raw escapable bytes x 6 escapes x 3 positions x 3 media types + fully escaped forms, each with 8 registries (none, identity, shrinking, failing, literal text/plain, pattern ^text/, both, nested = a stub that hands every nested data: URI to minify.DataURI as a sub-slice of its payload); the argument is retained before the call and the result at return; all three outcomes (original returned / percent / base64) are required to occur with and without escapes; non-trivial = output differs from input or the sub-minifier ran")
 		if err := c18EvalURIs(c, st, c18LookalikeSweep()); err != nil {
 			return err
 		}
@@ -949,7 +1064,7 @@ func init() {
 		st.End()
 
 		// ---- generated + corpus ----
-		st = c.R.StartStage("datauri", "generated data URIs (15+5 types incl. omitted/upper-case/whitespace, 0-3 parameters incl. default charset variants, base64 markers with whitespace, payloads over 7 alphabets incl. all 256 byte values, 5 percent-encoding modes, corrupt base64, malformed forms, token soup, 1 KB headers, 12% percent-encoded URIs made of data-URI-like text with a random share of raw escapable bytes) + the suite's cases + tests/data-uri/corpus, each with 5 registries; non-trivial = output differs from input or the sub-minifier ran")
+		st = c.R.StartStage("datauri", "generated data URIs (15+5 types incl. omitted/upper-case/whitespace, 0-3 parameters incl. default charset variants, base64 markers with whitespace, payloads over 7 alphabets incl. all 256 byte values, 5 percent-encoding modes, corrupt base64, malformed forms, token soup, 1 KB headers, 12% percent-encoded URIs made of data-URI-like text with a random share of raw escapable bytes) + the suite's cases + tests/data-uri/corpus, each with 8 registries; non-trivial = output differs from input or the sub-minifier ran")
 		uris = nil
 		for _, s := range c18Fixed {
 			uris = append(uris, []byte(s))
